@@ -349,8 +349,8 @@ func (r *rawReq) mutate(rng *rand.Rand, which int) string {
 			return "content-type added"
 		}
 	case 10: // body mutations
-		switch rng.IntN(15) {
-		case 12, 13, 14:
+		switch rng.IntN(18) {
+		case 12, 13, 14, 15, 16, 17:
 			// one scalar value of the document swapped for a value of another JSON type
 			type span struct{ a, b int }
 			var spans []span
@@ -388,7 +388,7 @@ func (r *rawReq) mutate(rng *rand.Rand, which int) string {
 				return "body replaced by a bare digit"
 			}
 			sp := spans[rng.IntN(len(spans))]
-			alt := []string{"7", "0", "42", "-1", "1.5", "1e400", "true", "null", "{}", "[]", `""`, `"x"`, `[null]`, `{"a":null}`}[rng.IntN(14)]
+			alt := []string{"7", "0", "42", "-1", "1.5", "1e400", "true", "null", "{}", "[]", `""`, `"x"`, `[null]`, `{"a":null}`, "3", "9"}[rng.IntN(16)]
 			nb := append([]byte{}, r.body[:sp.a]...)
 			nb = append(nb, alt...)
 			nb = append(nb, r.body[sp.b:]...)
